@@ -23,9 +23,10 @@ RULE = ("v3 vectors generated from own grammar tables; a case is one accepted ve
 
 def check_vector(P, vec, variants=False, tag=None, channels=False):
     """Judge one v3 vector string (must be ACCEPTable by the grammar)."""
+    P.remember({"vector": vec})
     L = lib()
     P.evaluations += 1
-    ok, o = obs.call(L.CVSS3, vec)
+    ok, o = obs.call(obs.construct, L.CVSS3, vec)
     if not ok:
         P.violation("construct", "C01:exception:" + obs.exc_name(o), {"vector": vec}, error=repr(o))
         return None
